@@ -147,7 +147,17 @@ func c06Deep(c *vlib.Ctx) {
 		for i := 0; i < 24; i++ {
 			r := vlib.Derive(c.Seed, "C06deep", i)
 			base := time.Duration(r.Range(1, 5000)) * vlib.Pick(r, []time.Duration{time.Nanosecond, time.Millisecond, time.Second, time.Minute})
-			cfgs = append(cfgs, cfg{r.Range(30, 1200), base, base * time.Duration(r.Range(1, 50)), vlib.Pick(r, []float64{0, 0.2, 1})})
+			max := r.Range(30, 1200)
+			capd := base * time.Duration(r.Range(1, 50))
+			// the whole retry history must fit into the representable time range
+			// (UnixNano ends in 2262): at most 100 years of virtual time per scenario
+			if limit := 100 * 365 * 24 * time.Hour / time.Duration(2*max); capd > limit {
+				capd = limit
+				if base > capd {
+					base = capd
+				}
+			}
+			cfgs = append(cfgs, cfg{max, base, capd, vlib.Pick(r, []float64{0, 0.2, 1})})
 		}
 	}
 	parallel(len(cfgs), 6, func(i int) {
@@ -170,6 +180,7 @@ func C06(c *vlib.Ctx) {
 	c06Random(c)
 	c06Deep(c)
 	c06HTTP(c)
+	c06Wire(c)
 	// an egress-policy denial raised at a redirect hop is still a policy denial:
 	// dead-lettered policy_denied after one attempt, not retried to max_retries
 	for _, be := range []string{"memory", "sqlite"} {
